@@ -284,6 +284,88 @@ impl HStep {
     }
 }
 
+/// A dead root searched first, then its ancestors: the order in which a table entry written for
+/// a checkmated / stalemated root is later met inside the tree of the positions before it.
+pub fn dead_end_prelude(rng: &mut Rng) -> Vec<HStep> {
+    for _ in 0..200 {
+        let extra = 1 + rng.below(4);
+        let start = gen::random_small_pos(rng, extra);
+        let mut p = start.clone();
+        let mut moves: Vec<String> = vec![];
+        for _ in 0..14 {
+            let legal = p.legal_moves();
+            if legal.is_empty() {
+                break;
+            }
+            // a move that ends the game at once (mate or stalemate), if there is one
+            let w = p.white_to_move;
+            let enders: Vec<Mv> = legal.iter().copied().filter(|m| !p.make(m).has_legal_move()).collect();
+            if !enders.is_empty() && moves.len() >= 2 {
+                let end = *rng.pick(&enders);
+                let fen0 = fen::render6(&start, 0, 1);
+                let mut dead = moves.clone();
+                dead.push(end.uci());
+                let mut steps = vec![HStep { root: Root { fen: fen0.clone(), moves: dead }, limit: Some(1 + rng.below(3) as u8), stop_at: 0, clear_table: false }];
+                for back in 0..3usize.min(moves.len()) {
+                    steps.push(HStep {
+                        root: Root { fen: fen0.clone(), moves: moves[..moves.len() - back].to_vec() },
+                        limit: Some((3 + back + rng.below(2)) as u8),
+                        stop_at: 0,
+                        clear_table: false,
+                    });
+                }
+                let _ = w;
+                return steps;
+            }
+            let m = *rng.pick(&legal);
+            moves.push(m.uci());
+            p = p.make(&m);
+        }
+    }
+    vec![]
+}
+
+/// The side to move is mated in two whatever it plays: first every checkmated position at the
+/// end of those lines is searched as a root, then the positions before the mates, then the
+/// doomed position itself (so every root move leads into cached dead positions).
+pub fn doomed_prelude(rng: &mut Rng) -> Vec<HStep> {
+    for _ in 0..400 {
+        let fam = if rng.chance(1, 2) { gen::Family::Kxk(o::QUEEN) } else { gen::Family::Kxk(o::ROOK) };
+        let Some(g) = gen::family_nth(fam, rng.next() % gen::family_size(fam)) else { continue };
+        let replies = g.legal_moves();
+        if replies.is_empty() || replies.len() > 4 {
+            continue;
+        }
+        let mut lines = vec![];
+        for r in &replies {
+            let p = g.make(r);
+            let mates = solve::mate_in_1(&p);
+            if mates.is_empty() {
+                lines.clear();
+                break;
+            }
+            lines.push((r.uci(), rng.pick(&mates).uci()));
+        }
+        if lines.is_empty() {
+            continue;
+        }
+        let fen0 = fen::render6(&g, 0, 1);
+        let mut steps = vec![];
+        for (r, m) in &lines {
+            steps.push(HStep { root: Root { fen: fen0.clone(), moves: vec![r.clone(), m.clone()] }, limit: Some(1 + rng.below(3) as u8), stop_at: 0, clear_table: false });
+        }
+        for (r, _) in &lines {
+            if rng.chance(1, 2) {
+                steps.push(HStep { root: Root { fen: fen0.clone(), moves: vec![r.clone()] }, limit: Some(2 + rng.below(3) as u8), stop_at: 0, clear_table: false });
+            }
+        }
+        steps.push(HStep { root: Root { fen: fen0.clone(), moves: vec![] }, limit: Some(3 + rng.below(3) as u8), stop_at: 0, clear_table: false });
+        steps.push(HStep { root: Root { fen: fen0, moves: vec![] }, limit: Some(5), stop_at: 0, clear_table: false });
+        return steps;
+    }
+    vec![]
+}
+
 /// A search history over one shared table: positions of one game in playing order, sibling
 /// positions, text twins differing only in rights / en-passant file, shallower-after-deeper and
 /// deeper-after-shallower limits, occasional stops at a random poll.
@@ -295,6 +377,11 @@ pub fn make_history(corpus: &[String], rng: &mut Rng, len: usize, max_depth: u8)
     }
     let moves = game_moves(&spec);
     let mut steps = vec![];
+    match rng.below(6) {
+        0 => steps.extend(dead_end_prelude(rng)),
+        1 | 2 => steps.extend(doomed_prelude(rng)),
+        _ => {}
+    }
     let mut ply = if moves.is_empty() { 0 } else { rng.below(moves.len().min(40) + 1) };
     while steps.len() < len {
         let base = Root { fen: spec.start_fen.clone(), moves: moves[..ply.min(moves.len())].to_vec() };
@@ -438,6 +525,9 @@ fn run_history(out: &mut Out, steps: &[HStep], prop: &str, hist_id: &str) {
                         }
                     }
                     None => {
+                        if legal.is_empty() {
+                            out.add("searches_on_dead_roots", 1);
+                        }
                         if !legal.is_empty() {
                             out.viol("C06", &format!("C06|none|{rootfen}"),
                                 &format!("search of {rootfen} completed {completed} iteration(s) but announced no move although {} legal moves exist", legal.len()), case());
@@ -510,7 +600,9 @@ pub fn run_hist(prop: &str, tier: &str, seed: u64) -> (Check, Agg) {
     chk.need("searches with a completed iteration", agg.c("searches_with_completed_iteration"), 100);
     chk.need("roots with a repetition pattern in the game record", agg.c("roots_with_repetition_pattern"), 20);
     chk.need("repetition pattern + single legal reply", agg.c("roots_with_repetition_pattern_and_single_reply"), 3);
-    chk.need("dead roots", agg.c("dead_roots") + agg.c("searches_on_dead_roots"), 0);
+    if prop == "C06" {
+        chk.need("searches on dead roots (followed by searches of their ancestors)", agg.c("searches_on_dead_roots"), 20);
+    }
     if prop == "C18" {
         chk.need("pv lines replayed", agg.c("pv_lines"), 300);
     }
